@@ -419,6 +419,7 @@ structure LInv (cfg : Cfg) (p : Pair) : Prop where
   xlt : p.x.tcb.sndUna < M32
   xw1 : 1 ≤ p.x.tcb.sndWnd
   xw2 : p.x.tcb.sndWnd ≤ advWindow cfg.recvCap 0
+  xes : p.x.tcb.egressSinceAck = 0
   yst : p.y.tcb.state = .established
   yfl : p.y.tcb.sndNxt = p.y.tcb.sndUna
   ysb : p.y.tcb.sendBuf = []
@@ -450,10 +451,62 @@ def End.acked (e : End) (k ua wnd ea ra : Nat) : End :=
   { e with tcb := { e.tcb with sendBuf := e.tcb.sendBuf.drop k, sndUna := ua, sndWnd := wnd,
                                egressSinceAck := ea, retxAttempts := ra } }
 
+/-- A sender whose `egress_since_ack` counter stands at `n`. -/
+def End.ticked (e : End) (n : Nat) : End :=
+  { e with tcb := { e.tcb with egressSinceAck := n } }
+
+/-- `d` further `check_retx` passes at an endpoint (the other endpoint is not looked at). -/
+def retxN (cfg : Cfg) (mss thr max : Nat) (o : End) : Nat → End → End
+  | 0, e => e
+  | d + 1, e => retxN cfg mss thr max o d (endStep cfg mss e o (.retx thr max))
+
+/-- `d` retransmit ticks below the threshold only count: nothing is rewound, nothing aborts; with
+    nothing in flight they do not even count. -/
+theorem retxN_ticks (cfg : Cfg) (mss thr max : Nat) (o : End) : ∀ (d : Nat) (e : End),
+    e.tcb.state = .established → (d = 0 ∨ e.tcb.sndUna = e.tcb.sndNxt ∨ e.tcb.egressSinceAck + d < thr) →
+    retxN cfg mss thr max o d e =
+      if e.tcb.sndUna = e.tcb.sndNxt then e else e.ticked (e.tcb.egressSinceAck + d) := by
+  intro d
+  induction d with
+  | zero =>
+    intro e _ _
+    simp only [retxN, Nat.add_zero]
+    split
+    · rfl
+    · obtain ⟨t, a, b, c, o'⟩ := e; cases t; rfl
+  | succ d ih =>
+    intro e hst hc
+    by_cases hfl : e.tcb.sndUna = e.tcb.sndNxt
+    · have hnoop : endStep cfg mss e o (.retx thr max) = e := retx_noop cfg mss thr max e o hst hfl.symm
+      simp only [retxN, hnoop]
+      rw [ih e hst (Or.inr (Or.inl hfl)), if_pos hfl, if_pos hfl]
+    · have hlt : e.tcb.egressSinceAck + (d + 1) < thr := by
+        rcases hc with hc | hc | hc
+        · omega
+        · exact absurd hc hfl
+        · exact hc
+      have hcand : e.tcb.retxCandidate = true := by
+        unfold Tcb.retxCandidate Tcb.isHandshake Tcb.transmittable
+        rw [hst]
+        simp [hfl]
+      have hnh : e.tcb.isHandshake = false := by unfold Tcb.isHandshake; rw [hst]; decide
+      have hstep : endStep cfg mss e o (.retx thr max) = e.ticked (e.tcb.egressSinceAck + 1) := by
+        simp only [endStep, hcand, hnh, Tcb.retxTick]
+        have : e.tcb.egressSinceAck + 1 < thr := by omega
+        simp [this, End.ticked]
+      simp only [retxN, hstep]
+      rw [ih (e.ticked (e.tcb.egressSinceAck + 1)) hst (Or.inr (Or.inr (by show e.tcb.egressSinceAck + 1 + d < thr; omega)))]
+      have h1 : ¬ ((e.ticked (e.tcb.egressSinceAck + 1)).tcb.sndUna = (e.ticked (e.tcb.egressSinceAck + 1)).tcb.sndNxt) := hfl
+      rw [if_neg h1, if_neg hfl]
+      simp only [End.ticked]
+      have : e.tcb.egressSinceAck + 1 + d = e.tcb.egressSinceAck + (d + 1) := by omega
+      rw [this]
+
 /-- One round on a network that loses nothing and delivers in order: the writer offers `w`, both
     kernels run `check_retx` and `segment_all`, everything `x` emitted reaches `y` in order, the
-    reader reads with an `n`-byte buffer, everything `y` emitted reaches `x` in order. -/
-def liveRound (cfg : Cfg) (mss thr max n : Nat) (w : List Nat) (p : Pair) : Pair :=
+    reader reads with an `n`-byte buffer, the sender's kernel runs `d` more `check_retx` passes (the
+    round-trip time in egress ticks), then everything `y` emitted reaches `x` in order. -/
+def liveRound (cfg : Cfg) (mss thr max d n : Nat) (w : List Nat) (p : Pair) : Pair :=
   let x1 := endStep cfg mss p.x p.y (.write w)
   let x2 := endStep cfg mss x1 p.y (.retx thr max)
   let y1 := endStep cfg mss p.y x2 (.retx thr max)
@@ -461,7 +514,8 @@ def liveRound (cfg : Cfg) (mss thr max n : Nat) (w : List Nat) (p : Pair) : Pair
   let y2 := endStep cfg mss y1 x3 .segment
   let y3 := ((x3.out.drop p.x.out.length).take (x3.out.length - p.x.out.length)).foldl (endRecv cfg) y2
   let y4 := endStep cfg mss y3 x3 (.read n)
-  let x4 := ((y4.out.drop p.y.out.length).take (y4.out.length - p.y.out.length)).foldl (endRecv cfg) x3
+  let x3t := retxN cfg mss thr max y4 d x3
+  let x4 := ((y4.out.drop p.y.out.length).take (y4.out.length - p.y.out.length)).foldl (endRecv cfg) x3t
   { x := x4, y := y4 }
 
 theorem advWindow_le (cap k : Nat) : advWindow cap k ≤ advWindow cap 0 := by
@@ -472,15 +526,15 @@ theorem drop_take_append (a l : List Seg) : ((a ++ l).drop a.length).take ((a ++
 
 /-- The round keeps the invariant, moves `k = min |send_buf| snd_wnd` bytes from the sender's buffer
     to the reader, and `k ≥ 1` whenever there is anything to move. -/
-theorem liveRound_ok (cfg : Cfg) (mss thr max n : Nat) (w : List Nat) (p : Pair) (hm : 1 ≤ mss)
-    (hsc : 1 ≤ cfg.sendCap) (hrc : 1 ≤ cfg.recvCap) (hfw : cfg.fixWinUpdate = true) (hn : cfg.recvCap ≤ n)
+theorem liveRound_ok (cfg : Cfg) (mss thr max d n : Nat) (w : List Nat) (p : Pair) (hm : 1 ≤ mss)
+    (hd : d = 0 ∨ d < thr) (hsc : 1 ≤ cfg.sendCap) (hrc : 1 ≤ cfg.recvCap) (hfw : cfg.fixWinUpdate = true) (hn : cfg.recvCap ≤ n)
     (h : LInv cfg p) :
-    LInv cfg (liveRound cfg mss thr max n w p) ∧
+    LInv cfg (liveRound cfg mss thr max d n w p) ∧
     ∃ m k, m ≤ w.length ∧
-      (liveRound cfg mss thr max n w p).x.acc = p.x.acc ++ w.take m ∧
-      (liveRound cfg mss thr max n w p).y.del = p.y.del ++ (p.x.tcb.sendBuf ++ w.take m).take k ∧
-      (liveRound cfg mss thr max n w p).x.tcb.sendBuf = (p.x.tcb.sendBuf ++ w.take m).drop k ∧
-      (liveRound cfg mss thr max n w p).y.acc = p.y.acc ∧
+      (liveRound cfg mss thr max d n w p).x.acc = p.x.acc ++ w.take m ∧
+      (liveRound cfg mss thr max d n w p).y.del = p.y.del ++ (p.x.tcb.sendBuf ++ w.take m).take k ∧
+      (liveRound cfg mss thr max d n w p).x.tcb.sendBuf = (p.x.tcb.sendBuf ++ w.take m).drop k ∧
+      (liveRound cfg mss thr max d n w p).y.acc = p.y.acc ∧
       k ≤ (p.x.tcb.sendBuf ++ w.take m).length ∧
       (p.x.tcb.sendBuf ≠ [] ∨ w ≠ [] → 0 < k) ∧ (p.x.tcb.sendBuf = [] → w ≠ [] → 0 < m) := by
   obtain ⟨m, hmle, hx1, hmpos⟩ := write_step cfg mss p.x p.y w h.xst h.xrs h.xto h.xwr
@@ -526,11 +580,41 @@ theorem liveRound_ok (cfg : Cfg) (mss thr max n : Nat) (w : List Nat) (p : Pair)
       else []) = U at hY4
   have hY4' : endStep cfg mss (p.y.got wy (wadd p.x.tcb.sndUna k) (B.take k) A) ((p.x.wrote (w.take m)).sent k L) (.read n) =
       (p.y.got wy (wadd p.x.tcb.sndUna k) (B.take k) A).drained U := hY4
+  -- the sender's retransmit ticks while the ACKs travel
+  have hT : ∃ tk, (k = 0 → tk = 0) ∧
+      retxN cfg mss thr max ((p.y.got wy (wadd p.x.tcb.sndUna k) (B.take k) A).drained U) d
+        ((p.x.wrote (w.take m)).sent k L) = ((p.x.wrote (w.take m)).sent k L).ticked tk := by
+    have hes : ((p.x.wrote (w.take m)).sent k L).tcb.egressSinceAck = 0 := h.xes
+    have hcond : d = 0 ∨ ((p.x.wrote (w.take m)).sent k L).tcb.sndUna = ((p.x.wrote (w.take m)).sent k L).tcb.sndNxt ∨
+        ((p.x.wrote (w.take m)).sent k L).tcb.egressSinceAck + d < thr := by
+      rcases hd with hd | hd
+      · exact Or.inl hd
+      · right; right; rw [hes]; omega
+    rw [retxN_ticks cfg mss thr max _ d ((p.x.wrote (w.take m)).sent k L) h.xst hcond]
+    by_cases hk0 : k = 0
+    · refine ⟨0, fun _ => rfl, ?_⟩
+      have : ((p.x.wrote (w.take m)).sent k L).tcb.sndUna = ((p.x.wrote (w.take m)).sent k L).tcb.sndNxt := by
+        show p.x.tcb.sndUna = wadd p.x.tcb.sndUna k; rw [hk0, wadd_zero _ h.xlt]
+      rw [if_pos this]
+      have h0 := h.xes
+      obtain ⟨⟨t, a, b, c, o'⟩, y⟩ := p
+      cases t
+      simp only at h0
+      simp [End.ticked, End.sent, End.wrote, h0]
+    · refine ⟨0 + d, fun h0 => absurd h0 hk0, ?_⟩
+      have : ¬ (((p.x.wrote (w.take m)).sent k L).tcb.sndUna = ((p.x.wrote (w.take m)).sent k L).tcb.sndNxt) := by
+        show ¬ (p.x.tcb.sndUna = wadd p.x.tcb.sndUna k)
+        intro he
+        have h1 : wadd p.x.tcb.sndUna 0 = wadd p.x.tcb.sndUna k := by rw [wadd_zero _ h.xlt]; exact he
+        have := wadd_inj _ 0 k (by unfold M32; omega) hk32 h1
+        omega
+      rw [if_neg this, hes]
+  obtain ⟨tk, htk0, hT⟩ := hT
   -- the sender takes the ACKs
-  have hX4a := ack_chain cfg p.x.tcb.sndUna cfg.recvCap hAc hk32 ((p.x.wrote (w.take m)).sent k L) h.xst h.xfin
+  have hX4a := ack_chain cfg p.x.tcb.sndUna cfg.recvCap hAc hk32 (((p.x.wrote (w.take m)).sent k L).ticked tk) h.xst h.xfin
     (by show p.x.tcb.sndUna = _; rw [wadd_zero _ h.xlt]) rfl
-  have hround : liveRound cfg mss thr max n w p =
-      { x := U.foldl (endRecv cfg) (A.foldl (endRecv cfg) ((p.x.wrote (w.take m)).sent k L)),
+  have hround : liveRound cfg mss thr max d n w p =
+      { x := U.foldl (endRecv cfg) (A.foldl (endRecv cfg) (((p.x.wrote (w.take m)).sent k L).ticked tk)),
         y := (p.y.got wy (wadd p.x.tcb.sndUna k) (B.take k) A).drained U } := by
     simp only [liveRound]
     rw [hx1', hx2, hy1, hx3', hy2]
@@ -538,7 +622,7 @@ theorem liveRound_ok (cfg : Cfg) (mss thr max n : Nat) (w : List Nat) (p : Pair)
     rw [ho3, drop_take_append, hY3', hY4']
     have ho4 : ((p.y.got wy (wadd p.x.tcb.sndUna k) (B.take k) A).drained U).out = p.y.out ++ (A ++ U) := by
       simp [End.drained, End.got]
-    rw [ho4, drop_take_append, List.foldl_append]
+    rw [ho4, drop_take_append, List.foldl_append, hT]
   have hUc : (U = [] ∧ (0 < k → advWindow cfg.recvCap k ≠ 0)) ∨
       (∃ sg : Seg, U = [sg] ∧ sg.payload = [] ∧ sg.flags.ack = true ∧ sg.flags.fin = false ∧ sg.flags.rst = false ∧
         sg.flags.syn = false ∧ sg.ack = wadd p.x.tcb.sndUna k ∧ sg.window = advWindow cfg.recvCap 0) := by
@@ -559,18 +643,23 @@ theorem liveRound_ok (cfg : Cfg) (mss thr max n : Nat) (w : List Nat) (p : Pair)
         omega
       · simp [h0, hk0]
   -- the sender's window after the round
-  have hXA : A.foldl (endRecv cfg) ((p.x.wrote (w.take m)).sent k L) =
-      ((p.x.wrote (w.take m)).sent k L).acked k (wadd p.x.tcb.sndUna k)
+  have hXA : A.foldl (endRecv cfg) (((p.x.wrote (w.take m)).sent k L).ticked tk) =
+      (((p.x.wrote (w.take m)).sent k L).ticked tk).acked k (wadd p.x.tcb.sndUna k)
         (if 0 = k then p.x.tcb.sndWnd else advWindow cfg.recvCap (0 + (k - 0)))
-        (if 0 = k then p.x.tcb.egressSinceAck else 0) (if 0 = k then p.x.tcb.retxAttempts else 0) := hX4a
-  have hX4 : ∃ wnd ea ra, 1 ≤ wnd ∧ wnd ≤ advWindow cfg.recvCap 0 ∧
-      U.foldl (endRecv cfg) (A.foldl (endRecv cfg) ((p.x.wrote (w.take m)).sent k L)) =
-        ((p.x.wrote (w.take m)).sent k L).acked k (wadd p.x.tcb.sndUna k) wnd ea ra := by
+        (if 0 = k then tk else 0) (if 0 = k then p.x.tcb.retxAttempts else 0) := hX4a
+  have hea : (if 0 = k then tk else 0) = 0 := by
+    by_cases h0 : 0 = k
+    · rw [if_pos h0]; exact htk0 h0.symm
+    · rw [if_neg h0]
+  rw [hea] at hXA
+  have hX4 : ∃ wnd ra, 1 ≤ wnd ∧ wnd ≤ advWindow cfg.recvCap 0 ∧
+      U.foldl (endRecv cfg) (A.foldl (endRecv cfg) (((p.x.wrote (w.take m)).sent k L).ticked tk)) =
+        (((p.x.wrote (w.take m)).sent k L).ticked tk).acked k (wadd p.x.tcb.sndUna k) wnd 0 ra := by
     have hadv0 : 1 ≤ advWindow cfg.recvCap 0 := by unfold advWindow; omega
     rw [hXA]
     rcases hUc with ⟨hUe, hnz⟩ | ⟨sg, hUe, hp, hfa, hff, hfr, hfs, hack, hwin⟩
     · rw [hUe]
-      refine ⟨_, _, _, ?_, ?_, rfl⟩
+      refine ⟨_, _, ?_, ?_, rfl⟩
       · by_cases h0 : 0 = k
         · rw [if_pos h0]; exact h.xw1
         · rw [if_neg h0]
@@ -581,20 +670,19 @@ theorem liveRound_ok (cfg : Cfg) (mss thr max n : Nat) (w : List Nat) (p : Pair)
         · rw [if_pos h0]; exact h.xw2
         · rw [if_neg h0]; exact advWindow_le _ _
     · rw [hUe]
-      refine ⟨advWindow cfg.recvCap 0, (if 0 = k then p.x.tcb.egressSinceAck else 0),
-        (if 0 = k then p.x.tcb.retxAttempts else 0), hadv0, Nat.le_refl _, ?_⟩
+      refine ⟨advWindow cfg.recvCap 0, (if 0 = k then p.x.tcb.retxAttempts else 0), hadv0, Nat.le_refl _, ?_⟩
       rw [List.foldl_cons, List.foldl_nil]
-      rw [recv_pure_ack cfg (((p.x.wrote (w.take m)).sent k L).acked k (wadd p.x.tcb.sndUna k)
+      rw [recv_pure_ack cfg ((((p.x.wrote (w.take m)).sent k L).ticked tk).acked k (wadd p.x.tcb.sndUna k)
         (if 0 = k then p.x.tcb.sndWnd else advWindow cfg.recvCap (0 + (k - 0)))
-        (if 0 = k then p.x.tcb.egressSinceAck else 0) (if 0 = k then p.x.tcb.retxAttempts else 0))
+        0 (if 0 = k then p.x.tcb.retxAttempts else 0))
         sg h.xst h.xfin hp hfa hff hfr hfs]
       have hz : wsub sg.ack (wadd p.x.tcb.sndUna k) = 0 := by rw [hack, wsub_self]
       rw [if_neg (by
         show ¬ (0 < wsub sg.ack (wadd p.x.tcb.sndUna k) ∧ _)
         rw [hz]; omega)]
-      simp only [End.acked, End.sent, End.wrote]
+      simp only [End.acked, End.sent, End.wrote, End.ticked]
       rw [hwin]
-  obtain ⟨wnd, ea, ra, hw1, hw2, hX4e⟩ := hX4
+  obtain ⟨wnd, ra, hw1, hw2, hX4e⟩ := hX4
   rw [hX4e] at hround
   refine ⟨?_, m, k, hmle, ?_⟩
   · rw [hround]
@@ -634,26 +722,27 @@ theorem liveRound_ok (cfg : Cfg) (mss thr max n : Nat) (w : List Nat) (p : Pair)
 /-- `r` lossless rounds starting with round number `i`: in round `i` the writer offers the next
     `chunk i` bytes of what it still has to write (`rest`) and retries what `poll_send` did not take;
     the reader reads with a buffer of `rd i` bytes. Returns the pair and what is still unwritten. -/
-def liveRun (cfg : Cfg) (mss thr max : Nat) (chunk rd : Nat → Nat) : Nat → Nat → Pair → List Nat → Pair × List Nat
+def liveRun (cfg : Cfg) (mss thr max d : Nat) (chunk rd : Nat → Nat) : Nat → Nat → Pair → List Nat → Pair × List Nat
   | 0, _, p, rest => (p, rest)
   | r + 1, i, p, rest =>
-    let q := liveRound cfg mss thr max (rd i) (rest.take (chunk i)) p
-    liveRun cfg mss thr max chunk rd r (i + 1) q (rest.drop (q.x.acc.length - p.x.acc.length))
+    let q := liveRound cfg mss thr max d (rd i) (rest.take (chunk i)) p
+    liveRun cfg mss thr max d chunk rd r (i + 1) q (rest.drop (q.x.acc.length - p.x.acc.length))
 
 /-- Ranking argument: unwritten + unacknowledged bytes drop by at least one per round until zero,
     while `read ++ unacknowledged ++ unwritten` stays the data. -/
-theorem liveRun_ok (cfg : Cfg) (mss thr max : Nat) (chunk rd : Nat → Nat) (hm : 1 ≤ mss) (hsc : 1 ≤ cfg.sendCap)
+theorem liveRun_ok (cfg : Cfg) (mss thr max d : Nat) (chunk rd : Nat → Nat) (hm : 1 ≤ mss) (hd : d = 0 ∨ d < thr)
+    (hsc : 1 ≤ cfg.sendCap)
     (hrc : 1 ≤ cfg.recvCap) (hfw : cfg.fixWinUpdate = true) (hch : ∀ i, 1 ≤ chunk i) (hrd : ∀ i, cfg.recvCap ≤ rd i)
     (data : List Nat) :
     ∀ (r i : Nat) (p : Pair) (rest : List Nat), LInv cfg p →
       p.y.del ++ p.x.tcb.sendBuf ++ rest = data → p.x.acc = p.y.del ++ p.x.tcb.sendBuf →
-      LInv cfg (liveRun cfg mss thr max chunk rd r i p rest).1 ∧
-      (liveRun cfg mss thr max chunk rd r i p rest).1.y.del ++ (liveRun cfg mss thr max chunk rd r i p rest).1.x.tcb.sendBuf ++
-        (liveRun cfg mss thr max chunk rd r i p rest).2 = data ∧
-      (liveRun cfg mss thr max chunk rd r i p rest).1.x.acc =
-        (liveRun cfg mss thr max chunk rd r i p rest).1.y.del ++ (liveRun cfg mss thr max chunk rd r i p rest).1.x.tcb.sendBuf ∧
-      (liveRun cfg mss thr max chunk rd r i p rest).1.y.acc = p.y.acc ∧
-      (liveRun cfg mss thr max chunk rd r i p rest).1.x.tcb.sendBuf.length + (liveRun cfg mss thr max chunk rd r i p rest).2.length
+      LInv cfg (liveRun cfg mss thr max d chunk rd r i p rest).1 ∧
+      (liveRun cfg mss thr max d chunk rd r i p rest).1.y.del ++ (liveRun cfg mss thr max d chunk rd r i p rest).1.x.tcb.sendBuf ++
+        (liveRun cfg mss thr max d chunk rd r i p rest).2 = data ∧
+      (liveRun cfg mss thr max d chunk rd r i p rest).1.x.acc =
+        (liveRun cfg mss thr max d chunk rd r i p rest).1.y.del ++ (liveRun cfg mss thr max d chunk rd r i p rest).1.x.tcb.sendBuf ∧
+      (liveRun cfg mss thr max d chunk rd r i p rest).1.y.acc = p.y.acc ∧
+      (liveRun cfg mss thr max d chunk rd r i p rest).1.x.tcb.sendBuf.length + (liveRun cfg mss thr max d chunk rd r i p rest).2.length
         ≤ p.x.tcb.sendBuf.length + rest.length - r := by
   intro r
   induction r with
@@ -661,28 +750,28 @@ theorem liveRun_ok (cfg : Cfg) (mss thr max : Nat) (chunk rd : Nat → Nat) (hm 
   | succ r ih =>
     intro i p rest h hg ha
     obtain ⟨hq, m, k, hmle, hacc, hdel, hsb, hyacc, hkle, hkpos, _⟩ :=
-      liveRound_ok cfg mss thr max (rd i) (rest.take (chunk i)) p hm hsc hrc hfw (hrd i) h
+      liveRound_ok cfg mss thr max d (rd i) (rest.take (chunk i)) p hm hd hsc hrc hfw (hrd i) h
     have hc := hch i
     have hwlen : (rest.take (chunk i)).length = min (chunk i) rest.length := List.length_take
     have htt : (rest.take (chunk i)).take m = rest.take m := by
       rw [List.take_take]; congr 1; omega
     rw [htt] at hacc hdel hsb hkle
-    have hm' : (liveRound cfg mss thr max (rd i) (rest.take (chunk i)) p).x.acc.length - p.x.acc.length = m := by
+    have hm' : (liveRound cfg mss thr max d (rd i) (rest.take (chunk i)) p).x.acc.length - p.x.acc.length = m := by
       rw [hacc, List.length_append, List.length_take]; omega
     simp only [liveRun]
     rw [hm']
-    have hg' : (liveRound cfg mss thr max (rd i) (rest.take (chunk i)) p).y.del ++
-        (liveRound cfg mss thr max (rd i) (rest.take (chunk i)) p).x.tcb.sendBuf ++ rest.drop m = data := by
+    have hg' : (liveRound cfg mss thr max d (rd i) (rest.take (chunk i)) p).y.del ++
+        (liveRound cfg mss thr max d (rd i) (rest.take (chunk i)) p).x.tcb.sendBuf ++ rest.drop m = data := by
       rw [hdel, hsb, List.append_assoc, List.append_assoc, ← List.append_assoc (List.take k _),
         List.take_append_drop, List.append_assoc, List.take_append_drop, ← List.append_assoc]
       exact hg
-    have ha' : (liveRound cfg mss thr max (rd i) (rest.take (chunk i)) p).x.acc =
-        (liveRound cfg mss thr max (rd i) (rest.take (chunk i)) p).y.del ++
-        (liveRound cfg mss thr max (rd i) (rest.take (chunk i)) p).x.tcb.sendBuf := by
+    have ha' : (liveRound cfg mss thr max d (rd i) (rest.take (chunk i)) p).x.acc =
+        (liveRound cfg mss thr max d (rd i) (rest.take (chunk i)) p).y.del ++
+        (liveRound cfg mss thr max d (rd i) (rest.take (chunk i)) p).x.tcb.sendBuf := by
       rw [hacc, hdel, hsb, List.append_assoc, List.take_append_drop, ha, List.append_assoc]
     obtain ⟨i1, i2, i3, i4, i5⟩ := ih (i + 1) _ _ hq hg' ha'
     refine ⟨i1, i2, i3, i4.trans hyacc, ?_⟩
-    have hlen : (liveRound cfg mss thr max (rd i) (rest.take (chunk i)) p).x.tcb.sendBuf.length + (rest.drop m).length
+    have hlen : (liveRound cfg mss thr max d (rd i) (rest.take (chunk i)) p).x.tcb.sendBuf.length + (rest.drop m).length
         = p.x.tcb.sendBuf.length + rest.length - k := by
       rw [hsb, List.length_drop, List.length_drop, List.length_append, List.length_take]
       rw [List.length_append, List.length_take] at hkle
@@ -756,7 +845,7 @@ theorem run_recvs_x (cfg : Cfg) (mss : Nat) : ∀ (n a : Nat) (p : Pair),
 
 /-- The schedule of one lossless round from state `p` (the `recv` indices are those of the segments
     emitted during the round). -/
-def roundActs (cfg : Cfg) (mss thr max n : Nat) (w : List Nat) (p : Pair) : List (Bool × Act) :=
+def roundActs (cfg : Cfg) (mss thr max d n : Nat) (w : List Nat) (p : Pair) : List (Bool × Act) :=
   let a1 : List (Bool × Act) :=
     [(false, .write w), (false, .retx thr max), (true, .retx thr max), (false, .segment), (true, .segment)]
   let p1 := p.run cfg mss a1
@@ -764,23 +853,33 @@ def roundActs (cfg : Cfg) (mss thr max n : Nat) (w : List Nat) (p : Pair) : List
   let p2 := p1.run cfg mss a2
   let p3 := p2.run cfg mss [(true, .read n)]
   let a4 := recvActs false p.y.out.length (p3.y.out.length - p.y.out.length)
-  a1 ++ (a2 ++ ((true, .read n) :: a4))
+  a1 ++ (a2 ++ ((true, .read n) :: (List.replicate d (false, .retx thr max) ++ a4)))
 
-theorem run_roundActs (cfg : Cfg) (mss thr max n : Nat) (w : List Nat) (p : Pair) :
-    p.run cfg mss (roundActs cfg mss thr max n w p) = liveRound cfg mss thr max n w p := by
+theorem run_retxN (cfg : Cfg) (mss thr max : Nat) : ∀ (d : Nat) (p : Pair),
+    p.run cfg mss (List.replicate d (false, Act.retx thr max)) = { p with x := retxN cfg mss thr max p.y d p.x } := by
+  intro d
+  induction d with
+  | zero => intro p; rfl
+  | succ d ih =>
+    intro p
+    simp only [List.replicate_succ, Pair.run, Pair.step, Bool.false_eq_true, if_false, retxN]
+    rw [ih]
+
+theorem run_roundActs (cfg : Cfg) (mss thr max d n : Nat) (w : List Nat) (p : Pair) :
+    p.run cfg mss (roundActs cfg mss thr max d n w p) = liveRound cfg mss thr max d n w p := by
   simp only [roundActs, Pair.run_append, run_recvs_y]
-  simp only [Pair.run, Pair.step, run_recvs_x, Bool.false_eq_true, if_false, if_true, liveRound]
+  simp only [Pair.run, Pair.step, Pair.run_append, run_retxN, run_recvs_x, Bool.false_eq_true, if_false, if_true, liveRound]
 
 /-- The schedule of `r` lossless rounds. -/
-def liveActs (cfg : Cfg) (mss thr max : Nat) (chunk rd : Nat → Nat) : Nat → Nat → Pair → List Nat → List (Bool × Act)
+def liveActs (cfg : Cfg) (mss thr max d : Nat) (chunk rd : Nat → Nat) : Nat → Nat → Pair → List Nat → List (Bool × Act)
   | 0, _, _, _ => []
   | r + 1, i, p, rest =>
-    let a := roundActs cfg mss thr max (rd i) (rest.take (chunk i)) p
+    let a := roundActs cfg mss thr max d (rd i) (rest.take (chunk i)) p
     let q := p.run cfg mss a
-    a ++ liveActs cfg mss thr max chunk rd r (i + 1) q (rest.drop (q.x.acc.length - p.x.acc.length))
+    a ++ liveActs cfg mss thr max d chunk rd r (i + 1) q (rest.drop (q.x.acc.length - p.x.acc.length))
 
-theorem run_liveActs (cfg : Cfg) (mss thr max : Nat) (chunk rd : Nat → Nat) : ∀ (r i : Nat) (p : Pair) (rest : List Nat),
-    p.run cfg mss (liveActs cfg mss thr max chunk rd r i p rest) = (liveRun cfg mss thr max chunk rd r i p rest).1 := by
+theorem run_liveActs (cfg : Cfg) (mss thr max d : Nat) (chunk rd : Nat → Nat) : ∀ (r i : Nat) (p : Pair) (rest : List Nat),
+    p.run cfg mss (liveActs cfg mss thr max d chunk rd r i p rest) = (liveRun cfg mss thr max d chunk rd r i p rest).1 := by
   intro r
   induction r with
   | zero => intro i p rest; rfl
